@@ -545,3 +545,77 @@ Section ScanProofs.
   Qed.
 
 End ScanProofs.
+
+(* ---------- the scanner reads the block scores only through the blocks ---------- *)
+
+(* Two score_rows functions that agree on the row ranges [kB, min(kB+B, R)) of the blocks
+   (k = 0, 1, ..) give the same run: next() never scores any other row range.  Together
+   with block_starts_cover (these ranges partition [0, R)) this is the block structure of
+   property C02. *)
+Section BlocksOnly.
+  Context {T : Type}.
+  Variable geb : T -> T -> bool.
+  Variable is_nan : T -> bool.
+  Variable scale : T -> nat.
+  Variable score_position : nat -> res T.
+  Variable sr sr' : nat -> nat -> res dmatrix.
+  Variable R Lm B : nat.
+  Variable thr : T.
+
+  Hypothesis Hagree : forall k, k * B < R ->
+    sr (k * B) (Nat.min (k * B + B) R) = sr' (k * B) (Nat.min (k * B + B) R).
+
+  Local Notation st := (@st T).
+  Local Notation nb f := (next_block geb is_nan scale score_position f R Lm B thr).
+  Local Notation nl f := (next_loop geb is_nan scale score_position f R Lm B thr).
+  Local Notation nx f := (next geb is_nan scale score_position f R Lm B thr).
+  Local Notation co f := (collect geb is_nan scale score_position f R Lm B thr).
+
+  Definition on_block (s : st) : Prop := exists k, row s = k * B.
+
+  Lemma next_block_agree s : on_block s -> row s < R -> nb sr s = nb sr' s.
+  Proof.
+    intros (k & E) Hlt. unfold next_block. rewrite E in *. rewrite Hagree by exact Hlt. reflexivity.
+  Qed.
+
+  Lemma next_block_on_block f s s' : on_block s -> nb f s = Ok s' -> on_block s'.
+  Proof.
+    intros (k & E) H. exists (S k).
+    rewrite (next_block_row geb is_nan scale score_position f R Lm B thr s s' H), E. simpl. lia.
+  Qed.
+
+  Lemma next_loop_agree fuel : forall s, on_block s ->
+    nl sr fuel s = nl sr' fuel s /\ (forall s', nl sr' fuel s = Ok s' -> on_block s').
+  Proof.
+    induction fuel as [|f IH]; intros s Hs; simpl; [split; [reflexivity|discriminate]|].
+    destruct (hits s).
+    - destruct (Nat.ltb_spec (row s) R) as [Hlt|Hge].
+      + rewrite (next_block_agree s Hs Hlt).
+        destruct (nb sr' s) as [s1| | |] eqn:E; simpl; try (split; [reflexivity|discriminate]).
+        apply IH. eapply next_block_on_block; eauto.
+      + split; [reflexivity|]. intros s' H. inversion H; subst. exact Hs.
+    - split; [reflexivity|]. intros s' H. inversion H; subst. exact Hs.
+  Qed.
+
+  Lemma next_agree s : on_block s ->
+    nx sr s = nx sr' s /\ (forall r s', nx sr' s = Ok (r, s') -> on_block s').
+  Proof.
+    intros Hs. unfold next. destruct (next_loop_agree (S R) s Hs) as (E & Hb). rewrite E.
+    split; [reflexivity|]. intros r s' H.
+    destruct (nl sr' (S R) s) as [s1| | |]; simpl in H; try discriminate.
+    specialize (Hb s1 eq_refl). destruct Hb as (k & Ek).
+    destruct (hits s1); inversion H; subst; exists k; simpl; auto.
+  Qed.
+
+  Lemma collect_agree fuel : forall s, on_block s -> co sr fuel s = co sr' fuel s.
+  Proof.
+    induction fuel as [|f IH]; intros s Hs; simpl; [reflexivity|].
+    destruct (next_agree s Hs) as (E & Hb). rewrite E.
+    destruct (nx sr' s) as [[r s1]| | |]; simpl; try reflexivity.
+    destruct r as [h|]; [|reflexivity].
+    rewrite (IH s1 (Hb _ _ eq_refl)). reflexivity.
+  Qed.
+
+  Lemma collect_init_agree fuel : co sr fuel init = co sr' fuel init.
+  Proof. apply collect_agree. exists 0. reflexivity. Qed.
+End BlocksOnly.
